@@ -6,7 +6,7 @@
 // Line protocol: one scenario per input line, run one after the other, one observation line each.
 //
 //	# ...                                                  -> skip
-//	mux scenario <transport> <seed> <stopmid> <clients> [shared=<r>]
+//	mux scenario <transport> <seed> <stopmid> <clients> [shared=<r>] [buf=<n>]
 //	                                                        -> obs order=<d:s,d:s,...|-> bad=<n> nconn=<n> nconnstop=<n>
 //	                                                              stopms=<n> afterstop=<n> g0=<n> g1=<n> grem=<n> rebind=<0|1>
 //	                                                              ownsock=<0|1> race=<0|1> w=<n,n,...> pc=<codes> del=<n> overlap=<n>
@@ -24,6 +24,10 @@
 //	                h  writes the first half of one more message and stays connected until the collector has been stopped
 //	                s  (tls) connects over TCP, sends 3 bytes of a ClientHello and stalls until the collector has been
 //	                   stopped; all other clients connect after it (elsewhere: like i)
+//	            <n>w<ms> (e.g. 12w6000) a SLOW session: the client connects, sends the first max(1, n/2) of its n messages,
+//	                   stays connected and idle for <ms> milliseconds (1..30000), then sends the rest and closes like c. The
+//	                   collector arms no deadline on a connection: everything must be delivered (TCP/TLS: exactly), however
+//	                   long the pause. The scenario lasts at least <ms>.
 //	shared=<r>  (r >= 1) ALL clients export in observation domain 1 with template id 256 - they share ONE stored
 //	            template in the collector - and every client sends the template set again as every r-th of its
 //	            messages (numbers 0, r, 2r, ...: an ordinary message in the client's numbering), so that template
@@ -32,6 +36,11 @@
 //	            message number (the collector does not interpret it), the data record carries (i+1, number) in its
 //	            two fields; deliveries are attributed by that client number, not by the header's domain, and are
 //	            reported as (i+1):number exactly as in the other scenarios. n <= 65535.
+//	buf=<n>     n in {0, 512, 1024, 65535}: CollectorInput.MaxBufferSize of the collector (default, and the only value
+//	            accepted over udp: 65535). The option sizes the UDP receive buffer and nothing else: over TCP/TLS what must
+//	            be delivered is the same whatever n is - also the 1 KB, 4.8 KB and 40 KB messages of the scenarios whose
+//	            seed is a multiple of 4 (numRecords). (Over UDP a small buffer legitimately truncates datagrams.)
+//	            The options may come in either order, each at most once.
 //
 // Observation:
 //
@@ -321,8 +330,9 @@ func (sc *scenario) payloadOK(m *entities.Message) bool {
 // ---- scenario ------------------------------------------------------------------------------------
 
 type clientSpec struct {
-	n   int
-	beh byte
+	n      int
+	beh    byte
+	idleMs int // beh 'w': pause between the first max(1, n/2) messages and the rest
 }
 
 func (c clientSpec) holds() bool { return c.beh == 'i' || c.beh == 'h' || c.beh == 's' }
@@ -333,21 +343,37 @@ type scenario struct {
 	stopMid   int // -1 = none
 	clients   []clientSpec
 	shared    int // 0 = every client has its own observation domain; r > 0 = one domain, template re-sent every r-th message
+	buf       int // CollectorInput.MaxBufferSize
 }
+
+const defaultBuf = 65535
 
 func parseScenario(f []string) (scenario, bool) {
 	var sc scenario
-	if len(f) == 5 && strings.HasPrefix(f[4], "shared=") {
-		r, err := strconv.Atoi(strings.TrimPrefix(f[4], "shared="))
-		if err != nil || r < 1 || r > 65535 {
-			return sc, false
-		}
-		sc.shared = r
-		f = f[:4]
-	}
-	if len(f) != 4 {
+	sc.buf = defaultBuf
+	if len(f) < 4 || len(f) > 6 {
 		return sc, false
 	}
+	haveShared, haveBuf := false, false
+	for _, o := range f[4:] {
+		switch {
+		case strings.HasPrefix(o, "shared=") && !haveShared:
+			r, err := strconv.Atoi(strings.TrimPrefix(o, "shared="))
+			if err != nil || r < 1 || r > 65535 {
+				return sc, false
+			}
+			sc.shared, haveShared = r, true
+		case strings.HasPrefix(o, "buf=") && !haveBuf:
+			n, err := strconv.Atoi(strings.TrimPrefix(o, "buf="))
+			if err != nil || !(n == 0 || n == 512 || n == 1024 || n == 65535) || (f[0] == "udp" && n != defaultBuf) {
+				return sc, false
+			}
+			sc.buf, haveBuf = n, true
+		default:
+			return sc, false
+		}
+	}
+	f = f[:4]
 	if f[0] != "tcp" && f[0] != "udp" && f[0] != "tls" {
 		return sc, false
 	}
@@ -369,6 +395,15 @@ func parseScenario(f []string) (scenario, bool) {
 		if len(t) < 2 {
 			return sc, false
 		}
+		if w := strings.IndexByte(t, 'w'); w >= 0 { // <n>w<ms>
+			n, err1 := strconv.Atoi(t[:w])
+			ms, err2 := strconv.Atoi(t[w+1:])
+			if err1 != nil || err2 != nil || n < 0 || n > 100000 || ms < 1 || ms > 30000 || (sc.shared > 0 && n > 65535) {
+				return sc, false
+			}
+			sc.clients = append(sc.clients, clientSpec{n, 'w', ms})
+			continue
+		}
 		n, err := strconv.Atoi(t[:len(t)-1])
 		b := t[len(t)-1]
 		if err != nil || n < 0 || n > 100000 || !strings.ContainsRune("caihs", rune(b)) {
@@ -377,7 +412,7 @@ func parseScenario(f []string) (scenario, bool) {
 		if sc.shared > 0 && n > 65535 {
 			return sc, false
 		}
-		sc.clients = append(sc.clients, clientSpec{n, b})
+		sc.clients = append(sc.clients, clientSpec{n, b, 0})
 	}
 	if len(sc.clients) == 0 || len(sc.clients) > 256 {
 		return sc, false
@@ -526,7 +561,25 @@ func (r *run) client(i int, res *clientResult, release <-chan struct{}) {
 		_, err := conn.Write(b)
 		return err
 	}
+	pauseAt := -1 // 'w': idle, connected, before message number pauseAt (after the last one if there is only one)
+	if spec.beh == 'w' {
+		pauseAt = spec.n / 2
+		if pauseAt < 1 {
+			pauseAt = 1
+		}
+	}
+	idle := func() {
+		t := time.NewTimer(time.Duration(spec.idleMs) * time.Millisecond)
+		defer t.Stop()
+		select {
+		case <-t.C:
+		case <-release: // the scenario is over (Stop() under traffic): do not hold it up
+		}
+	}
 	for k := 0; k < spec.n; k++ {
+		if k == pauseAt {
+			idle()
+		}
 		if err := write(r.sc.clientMsg(i, uint32(k))); err != nil {
 			res.writeErr = true
 			break
@@ -536,6 +589,9 @@ func (r *run) client(i int, res *clientResult, release <-chan struct{}) {
 		if udp && (k%4 == 3 || k == 0) { // small bursts: loopback buffers overflow easily
 			time.Sleep(pause)
 		}
+	}
+	if pauseAt >= spec.n && !res.writeErr {
+		idle()
 	}
 	if (spec.beh == 'a' || spec.beh == 'h') && !res.writeErr {
 		b := r.sc.clientMsg(i, uint32(spec.n))
@@ -786,7 +842,7 @@ func runScenario(sc scenario) string {
 	newRaceReports() // whatever came before is not this scenario's
 	g0 := runtime.NumGoroutine()
 
-	in := collector.CollectorInput{Address: "127.0.0.1:0", Protocol: "tcp", MaxBufferSize: 65535, TemplateTTL: 0}
+	in := collector.CollectorInput{Address: "127.0.0.1:0", Protocol: "tcp", MaxBufferSize: uint16(sc.buf), TemplateTTL: 0}
 	switch sc.transport {
 	case "udp":
 		in.Protocol = "udp"
